@@ -307,6 +307,12 @@ const QUICK_SPANS: [usize; 8] = [0, 1, 2, 5, 8, 20, 80, 120];
 
 static AVOID_UNICODE: std::sync::atomic::AtomicBool = std::sync::atomic::AtomicBool::new(false);
 
+/// C13 documents the `\\u{...}` spelling of non-ASCII text as allowed for literals: its use of
+/// check_text never demands Lua 5.1 text for them
+pub fn allow_unicode_escape_for_non_ascii_text() {
+    AVOID_UNICODE.store(true, std::sync::atomic::Ordering::Relaxed);
+}
+
 fn run(ctx: &RunCtx) {
     AVOID_UNICODE.store(ctx.avoid("unicode-escape-not-lua51"), std::sync::atomic::Ordering::Relaxed);
     static CORPUS: std::sync::OnceLock<Vec<String>> = std::sync::OnceLock::new();
